@@ -61,6 +61,18 @@ def assign : List Tgt → List Val → Env → Env
   | .wild :: ts, [], ρ => assign ts [] ρ
   | .wild :: ts, _ :: vs, ρ => assign ts vs ρ
 
+/-- the same, target by target, against a *stateful* source (a generator instance, an iterator
+value, a peekable — the variable keeps pointing at the one shared iterator): the second component
+is what the source still has to yield afterwards.  Every target pulls exactly once — `IterUnpack`
+for a name, `IterNextQuiet` for `_` / `_name` (also when it is the last target), `IterUnpack` into a
+temporary for a typed `_: T` -/
+def assignSt : List Tgt → List Val → Env → Env × List Val
+  | [], vs, ρ => (ρ, vs)
+  | .id x :: ts, [], ρ => assignSt ts [] (ρ.set x .null)
+  | .id x :: ts, v :: vs, ρ => assignSt ts vs (ρ.set x v)
+  | .wild :: ts, [], ρ => assignSt ts [] ρ
+  | .wild :: ts, _ :: vs, ρ => assignSt ts vs ρ
+
 /-- `a, b, c = rhs`: the expression's value is `rhs` itself -/
 def multiAssign (ts : List Tgt) (rhs : Val) (ρ : Env) : Option (Env × Val) :=
   (elems rhs).map (fun xs => (assign ts xs ρ, rhs))
